@@ -12,6 +12,7 @@ pub mod pack;
 pub mod life;
 pub mod mints;
 pub mod sdk;
+pub mod wider;
 pub mod slots {
     include!(concat!(env!("OUT_DIR"), "/slots.rs"));
     pub fn of(name: &str) -> &'static [&'static str] {
